@@ -1416,4 +1416,136 @@ theorem step_sim {a : AEAD} (hl : a.Laws) {cfg : Cfg} {cid : Nat} {fs fs' : FS} 
         · exact hnew e he
     · cases hs
 
+
+/-! ### 3d. runs, the established state, the conclusions -/
+
+theorem run_sim {a : AEAD} (hl : a.Laws) {cfg : Cfg} {cid : Nat} :
+    ∀ (ops : List FSOp) (fs fs' : FS) (d : Duo), Rel a cid fs d → DInv cfg d → runOK a cid fs ops = true →
+    fs.run a cid ops = some fs' → ∃ d', Rel a cid fs' d' ∧ DInv cfg d'
+  | [], fs, fs', d, h, hi, _, hr => by
+    simp only [FS.run, Option.some.injEq] at hr
+    subst hr
+    exact ⟨d, h, hi⟩
+  | op :: ops, fs, fs', d, h, hi, hok, hr => by
+    simp only [FS.run] at hr
+    simp only [runOK, Bool.and_eq_true] at hok
+    cases hs : fs.step a cid op with
+    | none => rw [hs] at hr; cases hr
+    | some fs1 =>
+      rw [hs] at hr hok
+      obtain ⟨l, d1, r1, h1⟩ := step_sim hl h hi hok.1 hs
+      exact run_sim hl ops fs1 fs' d1 h1 (drun_inv l d d1 hi r1) hok.2 hr
+
+/-- a `RenetClient` as its constructor leaves it, possibly after `set_connected` -/
+def FreshConn (budget : Nat) (send recv : List ChanCfg) (c : Conn) : Prop :=
+  c = Conn.fromChannels budget send recv ∨ c = (Conn.fromChannels budget send recv).setConnected
+
+/-- the message-layer part of "established": both `RenetClient`s of the session are freshly configured from the
+    same `ConnectionConfig` (`cfg.send` = client → server channels, `cfg.recv` = server → client channels, one
+    `available_bytes_per_tick`), the server's is in its table (keyed without repetition) under `cid`; all ghost
+    logs are empty -/
+structure RenetFresh (cfg : Cfg) (cid : Nat) (fs : FS) : Prop where
+  cli : FreshConn cfg.budget cfg.send cfg.recv fs.c.renet
+  sorted : SL.SMap.Sorted fs.s.renet.conns
+  srv : ∃ y, SMap.find? fs.s.renet.conns cid = some y ∧ FreshConn cfg.budget cfg.recv cfg.send y
+  ySeq : fs.ySeq = 0
+  sealedC : fs.sealedC = []
+  sealedS : fs.sealedS = []
+  subC : fs.subC = fun _ => []
+  subCU : fs.subCU = fun _ => []
+  obtS : fs.obtS = fun _ => []
+  subS : fs.subS = fun _ => []
+  subSU : fs.subSU = fun _ => []
+  obtC : fs.obtC = fun _ => []
+
+theorem dInv_fresh {cfg : Cfg} {x y : Conn} (hx : FreshConn cfg.budget cfg.send cfg.recv x)
+    (hy : FreshConn cfg.budget cfg.recv cfg.send y) : DInv cfg { Duo.init cfg with x := x, y := y } := by
+  rcases hx with rfl | rfl <;> rcases hy with rfl | rfl
+  · exact dInv_init cfg
+  · exact drun_inv [(.Y, .st .conn)] _ _ (dInv_init cfg) rfl
+  · exact drun_inv [(.X, .st .conn)] _ _ (dInv_init cfg) rfl
+  · exact drun_inv [(.X, .st .conn), (.Y, .st .conn)] _ _ (dInv_init cfg) rfl
+
+theorem freshConn_packetSeq {budget : Nat} {send recv : List ChanCfg} {c : Conn} (h : FreshConn budget send recv c) :
+    c.packetSeq = 0 := by
+  rcases h with rfl | rfl <;> rfl
+
+theorem rel_of_fresh (a : AEAD) {cfg : Cfg} {cid : Nat} {fs : FS} (h : RenetFresh cfg cid fs) :
+    ∃ d, Rel a cid fs d ∧ DInv cfg d := by
+  obtain ⟨y, hf, hy⟩ := h.srv
+  refine ⟨{ Duo.init cfg with x := fs.c.renet, y := y }, ?_, dInv_fresh h.cli hy⟩
+  refine ⟨rfl, ⟨h.sorted, Or.inl hf⟩, by rw [h.ySeq]; exact (freshConn_packetSeq hy).symm, h.subC.symm, h.subCU.symm,
+    h.obtS.symm, h.subS.symm, h.subSU.symm, h.obtC.symm, ?_, ?_⟩
+  · intro e he; rw [h.sealedC] at he; cases he
+  · intro e he; rw [h.sealedS] at he; cases he
+
+/-- the counter-range side conditions of `CountersOK` (C01S), for the client → server direction, on the FINAL state -/
+structure CountersUp (cfg : Cfg) (fs : FS) : Prop where
+  chan : ∀ c ∈ cfg.send, c.id < 256
+  seq : fs.c.renet.packetSeq ≤ Varint.MAX + 1
+  ids : ∀ c ∈ cfg.send, (fs.subC c.id).length ≤ Varint.MAX + 1
+  lens : ∀ c ∈ cfg.send, ∀ m ∈ fs.subC c.id, m.length ≤ MAX_NUM_SLICES * SLICE_SIZE
+  lensU : ∀ c ∈ cfg.send, ∀ m ∈ fs.subCU c.id, m.length ≤ MAX_NUM_SLICES * SLICE_SIZE
+
+/-- … and for the server → client direction -/
+structure CountersDown (cfg : Cfg) (fs : FS) : Prop where
+  chan : ∀ c ∈ cfg.recv, c.id < 256
+  seq : fs.ySeq ≤ Varint.MAX + 1
+  ids : ∀ c ∈ cfg.recv, (fs.subS c.id).length ≤ Varint.MAX + 1
+  lens : ∀ c ∈ cfg.recv, ∀ m ∈ fs.subS c.id, m.length ≤ MAX_NUM_SLICES * SLICE_SIZE
+  lensU : ∀ c ∈ cfg.recv, ∀ m ∈ fs.subSU c.id, m.length ≤ MAX_NUM_SLICES * SLICE_SIZE
+
+/-- the three end-to-end conclusions for one direction: `kind` = the sender's channel list, `sub`/`subU` what the
+    sending application submitted, `obt` what the receiving application obtained -/
+def Guarantees (cfg : Cfg) (sub subU obt : Nat → List Bytes) : Prop :=
+  (∀ ch, cfg.Ordered ch → obt ch <+: sub ch) ∧
+  (∀ ch, cfg.Unordered ch → ∃ ids : List Nat, ids.Nodup ∧ (obt ch).map some = ids.map (fun id => (sub ch)[id]?)) ∧
+  (∀ ch, cfg.Unreliable ch → ∀ x ∈ obt ch, x ∈ subU ch)
+
+theorem rel_concl {a : AEAD} {cfg : Cfg} {cid : Nat} {fs : FS} {d : Duo} (h : Rel a cid fs d) (hi : DInv cfg d) :
+    (CountersUp cfg fs → Guarantees cfg fs.subC fs.subCU fs.obtS) ∧
+    (CountersDown cfg fs → Guarantees (Cfg.swap cfg) fs.subS fs.subSU fs.obtC) := by
+  constructor
+  · intro hc
+    have hco : CountersOK cfg d.v1 := by
+      refine ⟨hc.chan, ?_, ?_, ?_, ?_⟩
+      · show d.x.packetSeq ≤ _
+        rw [h.x]; exact hc.seq
+      · show ∀ c ∈ cfg.send, (d.subX c.id).length ≤ _
+        rw [h.subC]; exact hc.ids
+      · show ∀ c ∈ cfg.send, ∀ m ∈ d.subX c.id, _
+        rw [h.subC]; exact hc.lens
+      · show ∀ c ∈ cfg.send, ∀ m ∈ d.subXU c.id, _
+        rw [h.subCU]; exact hc.lensU
+    have := sInv_concl hi.1 hco
+    show Guarantees cfg fs.subC fs.subCU fs.obtS
+    rw [← h.subC, ← h.subCU, ← h.obtS]
+    exact this
+  · intro hc
+    have hco : CountersOK (Cfg.swap cfg) d.v2 := by
+      refine ⟨hc.chan, ?_, ?_, ?_, ?_⟩
+      · show d.y.packetSeq ≤ _
+        rw [← h.yseq]; exact hc.seq
+      · show ∀ c ∈ cfg.recv, (d.subY c.id).length ≤ _
+        rw [h.subS]; exact hc.ids
+      · show ∀ c ∈ cfg.recv, ∀ m ∈ d.subY c.id, _
+        rw [h.subS]; exact hc.lens
+      · show ∀ c ∈ cfg.recv, ∀ m ∈ d.subYU c.id, _
+        rw [h.subSU]; exact hc.lensU
+    have := sInv_concl hi.2 hco
+    show Guarantees (Cfg.swap cfg) fs.subS fs.subSU fs.obtC
+    rw [← h.subS, ← h.subSU, ← h.obtC]
+    exact this
+
+/-- **The composition.**  After every finite run of the full stack from a state whose message layer is freshly
+    established, in which the run hypotheses hold at every transport `update`, the channel guarantees of C01S hold
+    end to end in both directions (each under the counter-range conditions for that direction). -/
+theorem full_stack {a : AEAD} (hl : a.Laws) {cfg : Cfg} {cid : Nat} {fs0 fs : FS} {ops : List FSOp}
+    (he : RenetFresh cfg cid fs0) (hr : fs0.run a cid ops = some fs) (hok : runOK a cid fs0 ops = true) :
+    (CountersUp cfg fs → Guarantees cfg fs.subC fs.subCU fs.obtS) ∧
+    (CountersDown cfg fs → Guarantees (Cfg.swap cfg) fs.subS fs.subSU fs.obtC) := by
+  obtain ⟨d0, h0, i0⟩ := rel_of_fresh a he
+  obtain ⟨d, h, hi⟩ := run_sim hl ops fs0 fs d0 h0 i0 hok hr
+  exact rel_concl h hi
+
 end RenetVerif.FullStack
